@@ -177,6 +177,97 @@ def guards_of(mod, qual, fn) -> List[Guard]:
     return out
 
 
+def loop_cover(g: "Guard"):
+    """-> [(why, line)]: ways in which an enclosing loop of guard g does not present every element to it"""
+    out = []
+    loops = [c[1] for c in g.ctxs if c[0] == "for"]
+    for loop in loops:
+        def narrow(e, depth=0):
+            while depth < 8:
+                depth += 1
+                if isinstance(e, ast.Call) and isinstance(e.func, ast.Name) and e.func.id in ("sorted", "list", "tuple", "set", "enumerate", "reversed", "frozenset") and e.args:
+                    e = e.args[0]
+                elif isinstance(e, ast.Call) and isinstance(e.func, ast.Attribute) and e.func.attr in ("items", "keys", "values") and not e.args:
+                    e = e.func.value
+                elif isinstance(e, ast.Call) and ast.unparse(e.func).split(".")[-1] in ("product", "zip", "chain"):
+                    for a_ in e.args:
+                        r_ = narrow(a_, depth)
+                        if r_:
+                            return r_
+                    return None
+                else:
+                    break
+            if isinstance(e, ast.Subscript) and isinstance(e.slice, ast.Slice):
+                return f"the loop ranges over the slice `{ast.unparse(e)[:60]}` only"
+            if isinstance(e, ast.Call) and ast.unparse(e.func).split(".")[-1] in ("islice", "filter", "takewhile", "dropwhile", "filterfalse"):
+                return f"the loop ranges over `{ast.unparse(e)[:60]}`, which drops elements"
+            if isinstance(e, (ast.ListComp, ast.GeneratorExp, ast.SetComp)) and any(gen.ifs for gen in e.generators):
+                return f"the loop ranges over the filtered collection `{ast.unparse(e)[:60]}`"
+            return None
+        r = narrow(loop.iter)
+        if r:
+            out.append((r, loop.lineno))
+
+        def exits(stmts, in_handler=False):
+            for st in stmts:
+                if isinstance(st, ast.Break):
+                    out.append((f"the loop is left by `break` (line {st.lineno}) before the remaining elements are seen", st.lineno))
+                elif isinstance(st, ast.Return):
+                    out.append((f"the function returns from inside the loop (line {st.lineno}) before the remaining elements are seen", st.lineno))
+                elif isinstance(st, (ast.For, ast.While)):
+                    # a nested loop's own break leaves only that loop -- which also hides ITS remaining elements when the guard is inside it
+                    if any(st is l_ for l_ in loops):
+                        continue
+                    for x in ast.walk(st):
+                        if isinstance(x, ast.Return):
+                            out.append((f"the function returns from inside the loop (line {x.lineno})", x.lineno))
+                elif isinstance(st, ast.If):
+                    exits(st.body, in_handler)
+                    exits(st.orelse, in_handler)
+                elif isinstance(st, ast.Try):
+                    exits(st.body, in_handler)
+                    for h in st.handlers:
+                        exits(h.body, True)
+                    exits(st.orelse, in_handler)
+                    exits(st.finalbody, in_handler)
+                elif isinstance(st, ast.With):
+                    exits(st.body, in_handler)
+        exits(loop.body)
+        # a conditional `continue` ahead of the guard skips the element (the AttributeError / hasattr / isinstance idioms -- "this element is not
+        # an expression, there is nothing to check" -- are the accepted ones)
+        elem_names = {n.id for n in ast.walk(loop.target) if isinstance(n, ast.Name)}
+
+        def skips(stmts):
+            for st in stmts:
+                if st is g.node or any(x is g.node for x in ast.walk(st)):
+                    if isinstance(st, ast.If) and st is not g.node:
+                        skips(st.body if any(x is g.node for b_ in st.body for x in ast.walk(b_)) else st.orelse)
+                    elif isinstance(st, ast.Try):
+                        skips(st.body)
+                    elif isinstance(st, (ast.For, ast.While, ast.With)):
+                        pass
+                    return True
+                if isinstance(st, ast.If) and not st.orelse and st.body and isinstance(st.body[-1], ast.Continue):
+                    t = st.test
+                    while isinstance(t, ast.UnaryOp) and isinstance(t.op, ast.Not):
+                        t = t.operand
+                    typ = isinstance(t, ast.Call) and isinstance(t.func, ast.Name) and t.func.id in ("hasattr", "isinstance") and t.args \
+                        and isinstance(t.args[0], ast.Name) and t.args[0].id in elem_names
+                    if not typ:
+                        out.append((f"elements for which `{ast.unparse(st.test)[:60]}` holds are skipped by `continue` (line {st.lineno}) before the check", st.lineno))
+            return False
+        inner = next((l_ for l_ in loops if l_ is not loop and any(x is l_ for x in ast.walk(loop))), None)
+        if inner is None or True:
+            skips(loop.body)
+    # de-duplicate
+    seen, res = set(), []
+    for w, l in out:
+        if (w, l) not in seen:
+            seen.add((w, l))
+            res.append((w, l))
+    return res
+
+
 # --------------------------------------------------------------------------------------------------------- recognisers
 def role_of(expr, env=None) -> Optional[str]:
     """which user collection does `expr` denote (through set()/list()/.keys() wrappers)?"""
@@ -270,7 +361,22 @@ def classify(g: Guard, fn, graph: Graph, _probe=False) -> List[str]:
         # the same test with the opposite polarity would discharge a cell: this guard raises exactly when the definition is *fine*
         flipped = Guard(g.mod, g.qual, g.node, g.test, not g.negated, g.ctxs, g.order)
         inv = [c for c in classify(flipped, fn, graph, _probe=True) if not c.startswith("weak|") and c not in ("F5:erasable",)]
-        return ["inverted|" + c for c in inv]
+        if inv:
+            return ["inverted|" + c for c in inv]
+        # `if A and B: raise` where B alone would discharge a cell: the refusal additionally needs A -- a weaker guard
+        t0, neg0 = g.test, g.negated
+        while isinstance(t0, ast.UnaryOp) and isinstance(t0.op, ast.Not):
+            t0, neg0 = t0.operand, not neg0
+        if isinstance(t0, ast.BoolOp) and ((isinstance(t0.op, ast.And) and not neg0) or (isinstance(t0.op, ast.Or) and neg0)):
+            outw = []
+            for i_, v_ in enumerate(t0.values):
+                part = Guard(g.mod, g.qual, g.node, v_, neg0, g.ctxs, g.order)
+                for c in classify(part, fn, graph, _probe=True):
+                    if not c.startswith("weak|") and c not in ("F5:erasable", "F4d:pairs-allowed"):
+                        others = " and ".join(("not " if neg0 else "") + ast.unparse(o_) for j_, o_ in enumerate(t0.values) if j_ != i_)
+                        outw.append(f"weak|{c}|the refusal `{ast.unparse(v_)[:50]}` is only made when also `{others[:60]}`")
+            return outw
+        return []
     env = local_env(fn)
     g = expand(g, fn)
     t = g.test
@@ -289,12 +395,20 @@ def classify(g: Guard, fn, graph: Graph, _probe=False) -> List[str]:
             pairs = _loop_pairs(loops[-1], fn)
             for p in pairs or []:
                 out.append("F1:" + "/".join(sorted(p)))
+    if isinstance(t, ast.Call) and isinstance(t.func, ast.Attribute) and t.func.attr in ("issubset", "issuperset") and t.args and neg and g.unconditional() \
+            and {role_of(t.func.value, env), role_of(t.args[0], env)} == {"calibration_map", "CALIB"}:
+        out.append("weak|F3|the calibration map's names are only compared one-sidedly (`%s`): a map with extra (or with missing) names passes" % ast.unparse(t))
     if isinstance(t, ast.Compare) and len(t.ops) == 1:
         op, l, r = t.ops[0], t.left, t.comparators[0]
         ll, lr = len_role(l, env), len_role(r, env)
         eq_fail = (isinstance(op, ast.Eq) and neg) or (isinstance(op, ast.NotEq) and not neg)     # raises when the sides differ
         if g.unconditional() and {ll, lr} == {"state_model", "STATE"} and isinstance(op, (ast.Lt, ast.Gt, ast.LtE, ast.GtE)):
             out.append("weak|F2:size|the state-model size is only compared one-sidedly (`%s`): extra or missing update expressions pass" % ast.unparse(t))
+        if g.unconditional() and isinstance(op, (ast.Lt, ast.Gt, ast.LtE, ast.GtE)) and ll is None and lr is None \
+                and {role_of(l, env), role_of(r, env)} == {"calibration_map", "CALIB"}:
+            out.append("weak|F3|the calibration map's names are only compared one-sidedly (`%s`): a map with extra (or with missing) names passes" % ast.unparse(t))
+        if g.unconditional() and isinstance(t.left, ast.Call) and isinstance(t.left.func, ast.Attribute) and False:
+            pass
         if eq_fail and g.unconditional() and {ll, lr} == {"calibration_map", "CALIB"}:
             out.append("weak|F3|only the number of calibration values is compared (`%s`): a map naming the wrong symbols passes" % ast.unparse(t))
         if eq_fail and g.unconditional():
@@ -595,6 +709,8 @@ def run(ctx: core.Ctx) -> int:
     need_cells["python.compile_ekf"] = ekf
     need_cells["cpp.compile_ekf"] = ekf
     matrix = {}
+    n_cover = [0]
+    ctx.rule("LOOP-COVER", "a guard inside a loop sees every element: the loop ranges over the whole collection and is never left early or skipped past")
     for mod, name in ENTRIES:
         ent = f"{mod}.{name}"
         fn = core.need(graph.func(mod, name), ent)
@@ -651,6 +767,13 @@ def run(ctx: core.Ctx) -> int:
         for c in need_cells[ent]:
             g = cells.get(c)
             row[c] = f"{FILES[g.mod]}:{g.qual}:{g.line}" if g else None
+            if g is not None:
+                for why_, line_ in loop_cover(g):
+                    ctx.oblige("LOOP-COVER", ent, f"{c}: the guard at {FILES[g.mod]}:{g.line} sees every element", False, file=FILES[g.mod], func=g.qual,
+                               construct=f"cell {c} loop cover: {why_[:60]}",
+                               msg=f"{ent}: fault class {c} ({_explain(c)}) is checked element by element at {FILES[g.mod]}:{g.line}, but {why_}: "
+                                   f"a definition whose fault sits in an element that is not reached is accepted", line=line_)
+                n_cover[0] += sum(1 for x in g.ctxs if x[0] == "for")
             tl = [tg for tc, tg in toothless if tc == c]
             if g is None and tl:
                 ctx.oblige("VALID-MATRIX", ent, f"{c}: tested but not refused", False, file=FILES[tl[0].mod], func=tl[0].qual, construct=f"cell {c} toothless {ent}",
@@ -714,6 +837,7 @@ def run(ctx: core.Ctx) -> int:
             ctx.oblige("ORDER", ent, f"validation statements {idx_val} precede output statement {idx_out}", ok, file=FILES[mod], func=name,
                        construct="validation before output", msg=f"{ent}: the files are written before validation / construction has finished")
     ctx.floor("GUARDS", all_guards, 14, "raise-guards examined on the entry points' paths")
+    ctx.floor("LOOP-COVER", n_cover[0], 4, "loops enclosing the guards that discharge a fault class")
     ctx.extra["validation_matrix"] = matrix
     # the file-writing function itself: generation of both texts precedes open(..., 'w')
     ci = graph.func("cpp", "_compile_impl")
